@@ -208,3 +208,202 @@ fn c17t_precomputed_table_real_sha() {
     }
     assert!(eq, "PRECOMPUTED_HASHES[i] = SHA-256(0x01 || i)");
 }
+
+// ---- curry_tree_hash: the hash computed from hashes alone = the tree hash of the actual curried
+// program `(a (q . P) (c (q . A1) (c (q . A2) 1)))`, built (1) by the crate's own
+// `CurriedProgram::to_clvm` and (2) by hand from pairs and the opcode atoms 1, 2, 4.
+use clvm_traits::{clvm_curried_args, ToClvm};
+use clvm_utils::{curry_tree_hash, CurriedProgram};
+
+/// `(a (q . P) ARGS)` by hand; ARGS = `(c (q . A1) (c (q . A2) ... 1))`
+pub fn curried_by_hand(a: &mut Allocator, program: NodePtr, args: &[NodePtr]) -> NodePtr {
+    let op_q = a.new_small_number(1).unwrap();
+    let op_a = a.new_small_number(2).unwrap();
+    let op_c = a.new_small_number(4).unwrap();
+    let mut quoted_args = a.new_small_number(1).unwrap();
+    let mut i = args.len();
+    while i > 0 {
+        i -= 1;
+        let qa = a.new_pair(op_q, args[i]).unwrap();
+        let t = a.new_pair(quoted_args, NodePtr::NIL).unwrap();
+        let t = a.new_pair(qa, t).unwrap();
+        quoted_args = a.new_pair(op_c, t).unwrap();
+    }
+    let qp = a.new_pair(op_q, program).unwrap();
+    let t = a.new_pair(quoted_args, NodePtr::NIL).unwrap();
+    let t = a.new_pair(qp, t).unwrap();
+    a.new_pair(op_a, t).unwrap()
+}
+
+/// one traversal only: `tree_hash` of the hand-built curried program (the plain routine is shown
+/// equal to the recursive definition by the harnesses above) against `curry_tree_hash` of the
+/// leaf hashes. Program and arguments are single leaves: the curried shape is what is checked.
+th_harness!(c17t_curry_0args, 110, {
+    let mut a = Allocator::new();
+    let (program, _) = sym_heap_atom::<3>(&mut a);
+    let hand = curried_by_hand(&mut a, program, &[]);
+    let want = tree_hash(&a, hand);
+    let got = curry_tree_hash(tree_hash(&a, program), &[]);
+    assert!(got == want, "curry_tree_hash (no arguments) = tree hash of (a (q . P) 1)");
+    kani::cover!(true);
+    std::mem::forget(a);
+});
+
+th_harness!(c17t_curry_1arg, 160, {
+    let mut a = Allocator::new();
+    let (program, _) = sym_heap_atom::<3>(&mut a);
+    let (arg1, _) = sym_heap_atom::<1>(&mut a);
+    let hand = curried_by_hand(&mut a, program, &[arg1]);
+    let want = tree_hash(&a, hand);
+    let got = curry_tree_hash(tree_hash(&a, program), &[tree_hash(&a, arg1)]);
+    assert!(got == want, "curry_tree_hash (1 argument) = tree hash of (a (q . P) (c (q . A1) 1))");
+    kani::cover!(true);
+    std::mem::forget(a);
+});
+
+th_harness!(c17t_curry_2args, 220, {
+    let mut a = Allocator::new();
+    let (program, _) = sym_heap_atom::<3>(&mut a);
+    let (arg1, _) = sym_heap_atom::<1>(&mut a);
+    let arg2 = a.new_small_number(200).unwrap();
+    let hand = curried_by_hand(&mut a, program, &[arg1, arg2]);
+    let want = tree_hash(&a, hand);
+    let got = curry_tree_hash(tree_hash(&a, program), &[tree_hash(&a, arg1), tree_hash(&a, arg2)]);
+    assert!(got == want, "curry_tree_hash (2 arguments, in order) = tree hash of the curried program");
+    kani::cover!(true);
+    std::mem::forget(a);
+});
+
+// quick tier: curry_tree_hash against the tree-hash DEFINITION written out for the curried shape
+// (no allocator: all leaf hashes are arbitrary 32-byte values). With "tree_hash = the recursive
+// definition" (harnesses above) and "CurriedProgram::to_clvm builds that shape" (below) this is
+// "curry_tree_hash = tree hash of the actual curried program".
+fn d_atom(b: &[u8]) -> [u8; 32] {
+    let mut h = Sha256::new();
+    h.update([1u8]);
+    h.update(b);
+    h.finalize()
+}
+fn d_pair(l: &[u8; 32], r: &[u8; 32]) -> [u8; 32] {
+    let mut h = Sha256::new();
+    h.update([2u8]);
+    h.update(l);
+    h.update(r);
+    h.finalize()
+}
+/// hash of `(c (q . A) REST)` = (4 . ((1 . A) . (REST . nil)))
+fn d_cons_quoted(arg: &[u8; 32], rest: &[u8; 32]) -> [u8; 32] {
+    let q = d_pair(&d_atom(&[1]), arg);
+    let t = d_pair(rest, &d_atom(&[]));
+    d_pair(&d_atom(&[4]), &d_pair(&q, &t))
+}
+/// hash of `(a (q . P) ARGS)` = (2 . ((1 . P) . (ARGS . nil)))
+fn d_apply(program: &[u8; 32], args: &[u8; 32]) -> [u8; 32] {
+    let q = d_pair(&d_atom(&[1]), program);
+    let t = d_pair(args, &d_atom(&[]));
+    d_pair(&d_atom(&[2]), &d_pair(&q, &t))
+}
+th_harness!(c17_curry_definition_0_1_2_args, 70, {
+    let p: [u8; 32] = kani::any();
+    let a1: [u8; 32] = kani::any();
+    let a2: [u8; 32] = kani::any();
+    let one = d_atom(&[1]);
+    let got0 = curry_tree_hash(TreeHash::new(p), &[]);
+    assert!(got0.to_bytes() == d_apply(&p, &one), "no arguments: (a (q . P) 1)");
+    let got1 = curry_tree_hash(TreeHash::new(p), &[TreeHash::new(a1)]);
+    assert!(got1.to_bytes() == d_apply(&p, &d_cons_quoted(&a1, &one)), "one argument: (a (q . P) (c (q . A1) 1))");
+    let got2 = curry_tree_hash(TreeHash::new(p), &[TreeHash::new(a1), TreeHash::new(a2)]);
+    let args2 = d_cons_quoted(&a1, &d_cons_quoted(&a2, &one));
+    assert!(got2.to_bytes() == d_apply(&p, &args2), "two arguments, first argument outermost");
+    kani::cover!(true);
+});
+
+// the crate's own CurriedProgram::to_clvm builds exactly that shape (destructured pair by pair;
+// program and argument are the very nodes passed in, the operators the atoms 2, 1, 4, 1)
+fn uncons(a: &Allocator, n: NodePtr) -> (NodePtr, NodePtr) {
+    match a.sexp(n) {
+        SExp::Pair(l, r) => (l, r),
+        SExp::Atom => {
+            assert!(false, "expected a pair");
+            (n, n)
+        }
+    }
+}
+harness!(c17_curried_program_shape, 30, {
+    let mut a = Allocator::new();
+    let (program, _) = sym_heap_atom::<3>(&mut a);
+    let (arg1, _) = sym_heap_atom::<1>(&mut a);
+    let args = clvm_curried_args!(arg1).to_clvm(&mut a).unwrap();
+    let real = CurriedProgram { program, args }.to_clvm(&mut a).unwrap();
+    // (2 . ((1 . P) . (ARGS . nil)))
+    let (op_a, t) = uncons(&a, real);
+    assert!(a.small_number(op_a) == Some(2));
+    let (qp, t) = uncons(&a, t);
+    let (q, p) = uncons(&a, qp);
+    assert!(a.small_number(q) == Some(1) && p == program, "(q . P) with P the program node itself");
+    let (cargs, nil) = uncons(&a, t);
+    assert!(nil == NodePtr::NIL);
+    // ARGS = (4 . ((1 . A1) . (1 . nil)))
+    let (op_c, t) = uncons(&a, cargs);
+    assert!(a.small_number(op_c) == Some(4));
+    let (qa, t) = uncons(&a, t);
+    let (q2, a1) = uncons(&a, qa);
+    assert!(a.small_number(q2) == Some(1) && a1 == arg1, "(q . A1) with A1 the argument node itself");
+    let (one, nil2) = uncons(&a, t);
+    assert!(a.small_number(one) == Some(1) && nil2 == NodePtr::NIL, "argument list ends in the atom 1");
+    kani::cover!(true);
+    std::mem::forget(a);
+});
+
+// ---- tree_hash_from_bytes: hash of a serialization (with back-references) = the definition applied
+// to the tree clvmr's deserializer yields for those bytes
+use clvmr::serde::node_from_bytes_backrefs;
+use clvm_utils::tree_hash_from_bytes;
+
+fn from_bytes_agrees(buf: &[u8]) -> bool {
+    let mut a = Allocator::new();
+    let r = tree_hash_from_bytes(buf);
+    let n = node_from_bytes_backrefs(&mut a, buf);
+    let ok = match (r, n) {
+        (Ok(h), Ok(node)) => {
+            assert!(h == tree_hash(&a, node), "tree_hash_from_bytes = plain tree hash of the deserialized tree");
+            true
+        }
+        (Err(_), Err(_)) => false,
+        _ => {
+            assert!(false, "tree_hash_from_bytes fails exactly when deserialization fails");
+            false
+        }
+    };
+    std::mem::forget(a);
+    ok
+}
+
+// (A . (B . A)) plain, and the same tree with the second A as a back-reference
+th_harness!(c17t_from_bytes_plain, 80, {
+    let s: [u8; 3] = kani::any();
+    let t: u8 = kani::any();
+    kani::assume(t >= 1 && t < 0x80);
+    let buf = [0xff, 0x83, s[0], s[1], s[2], 0xff, t, 0x83, s[0], s[1], s[2]];
+    let ok = from_bytes_agrees(&buf);
+    assert!(ok);
+    kani::cover!(true);
+});
+
+th_harness!(c17t_from_bytes_backref, 80, {
+    let s: [u8; 3] = kani::any();
+    let t: u8 = kani::any();
+    kani::assume(t >= 1 && t < 0x80);
+    // ff <A> ff <B> fe <path>: the path selects an already parsed object from the parse stack
+    let path: u8 = kani::any();
+    kani::assume(path == 2 || path == 4 || path == 6 || path == 5);
+    let buf = [0xff, 0x83, s[0], s[1], s[2], 0xff, t, 0xfe, path];
+    let plain = [0xff, 0x83, s[0], s[1], s[2], 0xff, t, 0x83, s[0], s[1], s[2]];
+    let r = tree_hash_from_bytes(&buf);
+    let ok = from_bytes_agrees(&buf);
+    // whichever path denotes A on the parse stack yields the hash of the plain serialization
+    if let (Ok(h), Ok(hp)) = (r, tree_hash_from_bytes(&plain)) {
+        kani::cover!(h == hp, "some back-reference path denotes the first atom");
+    }
+    kani::cover!(ok);
+});
